@@ -9,6 +9,9 @@ package zzverif
 import (
 	"encoding/json"
 	"fmt"
+	"hash/adler32"
+	"hash/crc32"
+	"hash/fnv"
 	dtpb "github.com/google/fhir/go/proto/google/fhir/proto/r4/core/datatypes_go_proto"
 	"google.golang.org/protobuf/reflect/protoreflect"
 	"google.golang.org/protobuf/types/known/anypb"
@@ -539,7 +542,7 @@ func c04GenIso(s Src) c04IsoCase {
 	var c c04IsoCase
 	names := []string{"fa", "fb", "fc"}
 	for i := 0; i < s.Range(1, 10); i++ {
-		c.Steps = append(c.Steps, c04Compile{Kind: pickOne(s, []string{"fresh", "fresh", "dup", "builtin", "experimental", "permissive", "patch", "plain", "plain", "variadic", "bad", "fresh+exp", "exp+fresh", "fresh+exp", "join-clash", "join-alone", "join-clash"}), Name: pickOne(s, names)})
+		c.Steps = append(c.Steps, c04Compile{Kind: pickOne(s, []string{"fresh", "fresh", "dup", "builtin", "experimental", "permissive", "patch", "plain", "plain", "variadic", "bad", "fresh+exp", "exp+fresh", "fresh+exp", "join-clash", "join-alone", "join-clash", "dup-same", "dup-same"}), Name: pickOne(s, names)})
 	}
 	return c
 }
@@ -636,6 +639,9 @@ func c04RunIso(ctx *Ctx, c c04IsoCase) {
 				e, err = fhirpath.Compile("Patient.name."+st.Name+"(1)", compopts.WithExperimentalFuncs(), add(st.Name, c04MyFn))
 			case "dup":
 				e, err = fhirpath.Compile("Patient.name."+st.Name+"(1)", add(st.Name, c04MyFn), add(st.Name, c04MyFn))
+			case "dup-same":
+				// the very option value that other steps of the history use alone, given twice
+				e, err = fhirpath.Compile("Patient.name."+st.Name+"(1)", addFn(st.Name), addFn(st.Name))
 			case "builtin":
 				e, err = fhirpath.Compile("Patient.name.count()", add("count", c04MyFn))
 			case "experimental":
@@ -685,7 +691,7 @@ func c04RunIso(ctx *Ctx, c c04IsoCase) {
 			registered[st.Name] = true
 		case "patch":
 			registered[st.Name] = true
-		case "dup":
+		case "dup", "dup-same":
 			if err == nil {
 				ctx.Fail("isolation: registering one name twice in a Compile call is accepted", strings.Join(history, "\n"))
 				return
@@ -759,6 +765,16 @@ func c04GenKeep(s Src) c04KeepCase {
 		if len(paths) > 0 {
 			c.Path = pickOne(s, paths) + pickOne(s, []string{"", "", "", ".where(true)", ".tail()", ".select($this)", ".take(5)", ".children()", " is Element", ".exists()", ".empty()", ".count()", ".first() is " + typ, ".select($this is Element)", ".toString()"})
 		}
+		if s.Prob(25) {
+			// results produced by every operator kind at the root (what an operator returns belongs to the caller too)
+			c.Path = "(" + c.Path + ")" + pickOne(s, []string{" and true", " or false", " xor true", " implies false", ".exists() and true", ".exists() or false", ".empty() xor false", ".exists() implies true", ".empty() and {}", ".exists() or {}", ".count() + 1", ".count() = 0", ".count() > 0", ".count() & 'x'", ".exists().not()", ".exists() is Boolean", ".count() as Integer"})
+		}
+		if s.Prob(8) {
+			c.Path = pickOne(s, []string{"true and true", "true and false", "{} and true", "false or false", "true or false", "{} or false", "true xor true", "true xor false", "{} xor true", "true implies false", "false implies false", "{} implies false", "true.not()", "1 = 1", "1 != 1", "1 < 2", "{} = 1"})
+		}
+		if s.Prob(8) {
+			c.Path = genProgram(s, 3, 0).min()
+		}
 		if s.Prob(10) {
 			// results that are, or are cut from, the root collection itself
 			c.Path = pickOne(s, []string{"$this", "%context", "%context.take(1)", "$this.tail()", typ, "$this is " + typ, "%context.skip(0)"})
@@ -785,7 +801,7 @@ func c04RunKeep(ctx *Ctx, c c04KeepCase) {
 	var first, second, third system.Collection
 	var err1, err2, err3 error
 	g := guard(func() {
-		first, err1 = e.Evaluate([]fhir.Resource{ra.(fhir.Resource)})
+		first, err1 = e.Evaluate([]fhir.Resource{ra.(fhir.Resource)}, evalopts.OverrideTime(fixedNow))
 	})
 	if g.Panic != "" || err1 != nil {
 		ctx.Eval(c.TA+c.Path, false, "stage:retained-results", "outcome:error")
@@ -798,8 +814,8 @@ func c04RunKeep(ctx *Ctx, c c04KeepCase) {
 		rend[i] = renderItem(x)
 	}
 	g = guard(func() {
-		second, err2 = e.Evaluate([]fhir.Resource{rb.(fhir.Resource)})
-		third, err3 = e.Evaluate([]fhir.Resource{ra.(fhir.Resource)})
+		second, err2 = e.Evaluate([]fhir.Resource{rb.(fhir.Resource)}, evalopts.OverrideTime(fixedNow))
+		third, err3 = e.Evaluate([]fhir.Resource{ra.(fhir.Resource)}, evalopts.OverrideTime(fixedNow))
 	})
 	ctx.Eval(c.TA+c.TB+c.Path, len(first) > 0 && len(second) > 0, "stage:retained-results", fmt.Sprintf("first-nonempty:%v", len(first) > 0), fmt.Sprintf("second-nonempty:%v", len(second) > 0))
 	if g.Panic != "" {
@@ -818,6 +834,16 @@ func c04RunKeep(ctx *Ctx, c c04KeepCase) {
 	}
 	// the caller owns what it was given: it may overwrite the first collection; a later
 	// evaluation must not see that
+	// ... and it may edit the items that are not nodes of an input (copies the library made
+	// for it: unpacked contained resources, reference strings)
+	own := map[any]bool{}
+	ownNodes(ra.ProtoReflect(), own, 0)
+	for _, x := range first {
+		if m, ok := x.(proto.Message); ok && !own[m] && !own[m.ProtoReflect()] {
+			c04Deface(m.ProtoReflect())
+			ctx.Count("retained_results_synthesised_items_defaced")
+		}
+	}
 	for i := range first {
 		first[i] = system.String("SCRIBBLED-BY-THE-CALLER")
 	}
@@ -826,7 +852,7 @@ func c04RunKeep(ctx *Ctx, c c04KeepCase) {
 	}
 	var fourth system.Collection
 	var err4 error
-	if g := guard(func() { fourth, err4 = e.Evaluate([]fhir.Resource{ra.(fhir.Resource)}) }); g.Panic == "" {
+	if g := guard(func() { fourth, err4 = e.Evaluate([]fhir.Resource{ra.(fhir.Resource)}, evalopts.OverrideTime(fixedNow)) }); g.Panic == "" {
 		if err4 != nil || len(fourth) != len(ids) {
 			ctx.Fail("retained result: after the caller overwrote the collections it had been given, evaluating again gives another result", fmt.Sprintf("%s: %d items then %d (err %v)", c.Path, len(ids), len(fourth), err4))
 			return
@@ -848,6 +874,121 @@ func c04RunKeep(ctx *Ctx, c c04KeepCase) {
 			return
 		}
 	}
+}
+
+// --- (h) colliding keys ----------------------------------------------------------------------
+
+// A memo table keyed by a short hash of a string (a regular expression, a source text, a
+// variable name) makes one evaluation depend on an earlier, unrelated one as soon as two keys
+// collide.  Random strings never collide, so the pairs were searched for: among 6 000 000 strings
+// of one shape, pairs that collide under one of the 32-bit hashes of Go's standard
+// library (FNV-1, FNV-1a, CRC-32 IEEE and Castagnoli, Adler-32, and the folded 64-bit FNVs).
+// For every pair (A, B) the programs about A run first, then the programs about B, whose
+// results are known without the library.
+type c04CollideCase struct {
+	Hash string `json:"hash"`
+	A    string `json:"a"`
+	B    string `json:"b"`
+}
+
+// pairs found once by an exhaustive search over the first 6 000 000 strings of each shape
+// (adversarial inputs, not properties of the code under test); every pair is re-verified
+// when the stage starts, so a wrong entry is a harness error, never a violation
+var c04CollideTable = [][4]string{
+	{"fnv32", "^K-%d$", "679727", "1081000"}, {"fnv32", "^K-%d$", "679726", "1081001"},
+	{"fnv32a", "^K-%d$", "14718", "1330442"}, {"fnv32a", "^K-%d$", "14719", "1330443"},
+	{"crc32-castagnoli", "^K-%d$", "1371838", "2000402"}, {"crc32-castagnoli", "^K-%d$", "1371839", "2000403"},
+	{"adler32", "^K-%d$", "120", "201"}, {"adler32", "^K-%d$", "121", "202"},
+	{"fnv64a-folded", "^K-%d$", "6400", "98931"}, {"fnv64a-folded", "^K-%d$", "72422", "100157"},
+	{"fnv64a-low", "^K-%d$", "1128781", "1732490"}, {"fnv64a-low", "^K-%d$", "1128780", "1732491"},
+	{"fnv64-low", "^K-%d$", "578189", "1175884"}, {"fnv64-low", "^K-%d$", "578188", "1175885"},
+	{"fnv32", "K-%d", "1049599", "1212382"}, {"fnv32", "K-%d", "1049598", "1212383"},
+	{"fnv32a", "K-%d", "73859", "725424"}, {"fnv32a", "K-%d", "73858", "725425"},
+	{"crc32-castagnoli", "K-%d", "1371838", "2000402"}, {"crc32-castagnoli", "K-%d", "1371839", "2000403"},
+	{"adler32", "K-%d", "120", "201"}, {"adler32", "K-%d", "121", "202"},
+	{"fnv64a-folded", "K-%d", "44489", "46387"}, {"fnv64a-folded", "K-%d", "76949", "111077"},
+	{"fnv64a-low", "K-%d", "274991", "802880"}, {"fnv64a-low", "K-%d", "274990", "802881"},
+	{"fnv64-low", "K-%d", "758781", "902490"}, {"fnv64-low", "K-%d", "758780", "902491"},
+}
+
+var c04Hashes = map[string]func(string) uint32{
+	"fnv32":            func(x string) uint32 { h := fnv.New32(); h.Write([]byte(x)); return h.Sum32() },
+	"fnv32a":           func(x string) uint32 { h := fnv.New32a(); h.Write([]byte(x)); return h.Sum32() },
+	"crc32-castagnoli": func(x string) uint32 { return crc32.Checksum([]byte(x), crc32.MakeTable(crc32.Castagnoli)) },
+	"adler32":          func(x string) uint32 { return adler32.Checksum([]byte(x)) },
+	"fnv64a-folded":    func(x string) uint32 { h := fnv.New64a(); h.Write([]byte(x)); v := h.Sum64(); return uint32(v) ^ uint32(v>>32) },
+	"fnv64a-low":       func(x string) uint32 { h := fnv.New64a(); h.Write([]byte(x)); return uint32(h.Sum64()) },
+	"fnv64-low":        func(x string) uint32 { h := fnv.New64(); h.Write([]byte(x)); return uint32(h.Sum64()) },
+}
+
+func c04EnumCollide(yield func(c04CollideCase)) {
+	for _, e := range c04CollideTable {
+		yield(c04CollideCase{Hash: e[0] + " of " + e[1], A: e[2], B: e[3]})
+	}
+}
+
+func c04RunCollide(ctx *Ctx, c c04CollideCase) {
+	ctx.Eval(c.Hash+c.A+c.B, true, "stage:colliding-keys", "hash:"+c.Hash)
+	a, b := "K-"+c.A, "K-"+c.B
+	if hp := strings.SplitN(c.Hash, " of ", 2); len(hp) == 2 {
+		h := c04Hashes[hp[0]]
+		if h == nil || c.A == c.B || h(strings.Replace(hp[1], "%d", c.A, 1)) != h(strings.Replace(hp[1], "%d", c.B, 1)) {
+			ctx.Fail("harness: the table of colliding keys has an entry that does not collide", fmt.Sprint(c))
+			return
+		}
+	}
+	type prog struct {
+		src  string
+		vars map[string]any
+		want string
+	}
+	about := func(x, other string) []prog {
+		return []prog{
+			{"'" + x + "'.matches('^" + x + "$')", nil, "[Boolean:true]"},
+			{"'" + other + "'.matches('^" + x + "$')", nil, "[Boolean:false]"},
+			{"'" + x + "'.replaceMatches('^" + x + "$', 'r')", nil, `[String:"r"]`},
+			{"'" + other + "'.replaceMatches('^" + x + "$', 'r')", nil, `[String:"` + other + `"]`},
+			{"'" + x + "'.replace('" + x + "', 'r')", nil, `[String:"r"]`},
+			{"'" + x + "'", nil, `[String:"` + x + `"]`},
+			{"'^" + x + "$'", nil, `[String:"^` + x + `$"]`},
+			{"'" + x + "' = '" + other + "'", nil, "[Boolean:false]"},
+			{"'" + x + "'.indexOf('" + other + "')", nil, "[Integer:-1]"},
+			{"('" + x + "' | '" + other + "').count()", nil, ""},
+			{"%`" + x + "`", map[string]any{x: system.String("v" + x), other: system.String("v" + other)}, `[String:"v` + x + `"]`},
+			{"'" + x + "'.toString() & '" + other + "'", nil, `[String:"` + x + other + `"]`},
+		}
+	}
+	for _, p := range append(about(a, b), about(b, a)...) {
+		out := evalWith(p.src, nil, p.vars)
+		if out.Panic != "" {
+			ctx.Fail("colliding keys: panic@"+out.Panic, p.src)
+			return
+		}
+		if p.want == "" || out.CompileErr != nil {
+			continue
+		}
+		if out.Err != nil || renderColl(out.Coll) != p.want {
+			ctx.Fail("colliding keys: a result depends on an earlier evaluation whose pattern/literal/name collides with this one under "+strings.SplitN(c.Hash, " ", 2)[0], fmt.Sprintf("after the programs about %q: %s → %s, want %s", a, p.src, out, p.want))
+			return
+		}
+	}
+}
+
+// c04Deface overwrites every scalar string/bytes field of a message tree and clears its
+// repeated fields (the message belongs to the caller).
+func c04Deface(m protoreflect.Message) {
+	m.Range(func(fd protoreflect.FieldDescriptor, v protoreflect.Value) bool {
+		switch {
+		case fd.IsList():
+			m.Clear(fd)
+		case fd.IsMap():
+		case fd.Kind() == protoreflect.StringKind:
+			m.Set(fd, protoreflect.ValueOfString("defaced"))
+		case fd.Kind() == protoreflect.MessageKind:
+			c04Deface(v.Message())
+		}
+		return true
+	})
 }
 
 // --- (f) the result follows the input when the caller edits it in place --------------------
@@ -961,7 +1102,7 @@ func c04RunEdit(ctx *Ctx, c c04EditCase) {
 	}
 	var first, second, fresh system.Collection
 	var err1, err2, err3 error
-	g := guard(func() { first, err1 = e.Evaluate([]fhir.Resource{ra.(fhir.Resource)}) })
+	g := guard(func() { first, err1 = e.Evaluate([]fhir.Resource{ra.(fhir.Resource)}, evalopts.OverrideTime(fixedNow)) })
 	if g.Panic != "" {
 		return // C01
 	}
@@ -969,7 +1110,7 @@ func c04RunEdit(ctx *Ctx, c c04EditCase) {
 	c04EditInPlace(ra.ProtoReflect(), 0)
 	cp := proto.Clone(ra)
 	g = guard(func() {
-		second, err2 = e.Evaluate([]fhir.Resource{ra.(fhir.Resource)})
+		second, err2 = e.Evaluate([]fhir.Resource{ra.(fhir.Resource)}, evalopts.OverrideTime(fixedNow))
 		if e2, cerr2 := fhirpath.Compile(c.Path + " "); cerr2 == nil { // another source text: another compilation
 			fresh, err3 = e2.Evaluate([]fhir.Resource{cp.(fhir.Resource)})
 		} else {
@@ -1157,12 +1298,13 @@ func c04RunOpt(ctx *Ctx, c c04OptCase) {
 
 func TestC04(t *testing.T) {
 	r := newRec("C04",
-		"(concurrent) a history is 1..6 compiled expressions (a pool of read-heavy programs using where/select/exists/all/iif/now()/variables/a custom function, plus generated programs), the fixture Patient + 0..2 generated resources shared by all goroutines, 2..16 goroutines each with 1..20 (expression, resource subset, option set) evaluations (60% of them the same expression on the same resource), a drawn start order behind a barrier, GOMAXPROCS ∈ {1,2,4,16} and 0..3 goroutines calling Compile/patch.Compile with AddFunction/WithExperimentalFuncs meanwhile; run in a -race binary; oracle: race detector silent, every concurrent result (rendering and element pointers) equals the same evaluation performed alone beforehand, shared resources unchanged.  (time) instants around epoch/leap day/DST changes/year 9999 in 13 zones: now()/today()/timeOfDay() under OverrideTime, one instant per evaluation spanning ≥ 6 ms with and without override, repeatability.  (changing-options) one compiled expression - variables at the receiver/argument positions of every specification function and at both sides of every binary operator, values from the boundary pool of the kind the position expects - evaluated with first values, other values and the first values again: each result equals that of a freshly compiled expression with the same options.  (tz-matrix) a battery (fixed programs plus literal and element arithmetic, conversions and comparisons for 9 starts around the daylight-saving changes of the matrix zones × 9 offsets × 9 amounts) without OverrideTime in child processes with TZ ∈ {UTC, Asia/Kolkata, America/St_Johns, Pacific/Chatham} must render identically.  (compile-isolation) generated histories of 1..10 Compile calls over {fresh/duplicate/built-in/variadic/non-function AddFunction, WithExperimentalFuncs, AddFunction combined with WithExperimentalFuncs in either order, Permissive, patch.Compile, plain} with the invariant after every step: base table snapshot unchanged, no registered name resolves elsewhere, join only with the experimental option, built-in battery unchanged.  (retained-results) one compiled path (a path of a generated resource A, optionally followed by where/tail/select/take/children) evaluated on A, then on a second resource B of the same type, then on A again: the collection returned first still holds A's elements and the third result equals the first.; the caller then overwrites the collections it was given and evaluates once more (same result); programs include `is`/exists()/count() results and results cut from the root collection.  (in-place-edits) a compiled path with a conversion (toString(), = …) is evaluated, the caller changes the value of every primitive element in place and re-packs every contained resource into its own Any, and evaluates again: the result must equal a fresh compilation evaluated on a deep copy of the edited resource.  non-trivial = ≥ 2 evaluations of one (expression, resources, options) triple in different goroutines; a history with a registration followed by a plain Compile; distinct = FNV-64 of the history",
+		"(concurrent) a history is 1..6 compiled expressions (a pool of read-heavy programs using where/select/exists/all/iif/now()/variables/a custom function, plus generated programs), the fixture Patient + 0..2 generated resources shared by all goroutines, 2..16 goroutines each with 1..20 (expression, resource subset, option set) evaluations (60% of them the same expression on the same resource), a drawn start order behind a barrier, GOMAXPROCS ∈ {1,2,4,16} and 0..3 goroutines calling Compile/patch.Compile with AddFunction/WithExperimentalFuncs meanwhile; run in a -race binary; oracle: race detector silent, every concurrent result (rendering and element pointers) equals the same evaluation performed alone beforehand, shared resources unchanged.  (time) instants around epoch/leap day/DST changes/year 9999 in 13 zones: now()/today()/timeOfDay() under OverrideTime, one instant per evaluation spanning ≥ 6 ms with and without override, repeatability.  (changing-options) one compiled expression - variables at the receiver/argument positions of every specification function and at both sides of every binary operator, values from the boundary pool of the kind the position expects - evaluated with first values, other values and the first values again: each result equals that of a freshly compiled expression with the same options.  (tz-matrix) a battery (fixed programs plus literal and element arithmetic, conversions and comparisons for 9 starts around the daylight-saving changes of the matrix zones × 9 offsets × 9 amounts) without OverrideTime in child processes with TZ ∈ {UTC, Asia/Kolkata, America/St_Johns, Pacific/Chatham} must render identically.  (compile-isolation) generated histories of 1..10 Compile calls over {fresh/duplicate/built-in/variadic/non-function AddFunction, WithExperimentalFuncs, AddFunction combined with WithExperimentalFuncs in either order, Permissive, patch.Compile, plain} with the invariant after every step: base table snapshot unchanged, no registered name resolves elsewhere, join only with the experimental option, built-in battery unchanged.  (retained-results) one compiled path (a path of a generated resource A, optionally followed by where/tail/select/take/children) evaluated on A, then on a second resource B of the same type, then on A again: the collection returned first still holds A's elements and the third result equals the first.; the caller then overwrites the collections it was given, defaces the returned items that are not nodes of an input (unpacked contained resources) and evaluates once more (same result); programs include the results of every operator kind at the root, `is`/exists()/count() results, generated programs and results cut from the root collection.  (colliding-keys) pairs of patterns/literals/variable names that collide under the 32-bit hashes of the standard library (found by exhaustive search, re-verified at run time): the programs about one must not change the results of the programs about the other.  (in-place-edits) a compiled path with a conversion (toString(), = …) is evaluated, the caller changes the value of every primitive element in place and re-packs every contained resource into its own Any, and evaluates again: the result must equal a fresh compilation evaluated on a deep copy of the edited resource.  non-trivial = ≥ 2 evaluations of one (expression, resources, options) triple in different goroutines; a history with a registration followed by a plain Compile; distinct = FNV-64 of the history",
 		"the Go scheduler is not controlled: only interleavings that occur are judged; the race detector flags conflicting unsynchronised accesses that occur in a run even if they did not overlap in time")
 	runProperty(t, r,
 		Stage[c04TZCase]{Name: "tz-matrix", Enum: c04EnumTZ, Run: c04RunTZ},
 		Stage[c04IsoCase]{Name: "compile-isolation", Gen: c04GenIso, Run: c04RunIso, N: pick(150, 3000)},
-		Stage[c04KeepCase]{Name: "retained-results", Gen: c04GenKeep, Run: c04RunKeep, N: pick(400, 8000)},
+		Stage[c04KeepCase]{Name: "retained-results", Gen: c04GenKeep, Run: c04RunKeep, N: pick(600, 8000)},
+		Stage[c04CollideCase]{Name: "colliding-keys", Enum: c04EnumCollide, Run: c04RunCollide},
 		Stage[c04EditCase]{Name: "in-place-edits", Gen: c04GenEdit, Run: c04RunEdit, N: pick(400, 8000)},
 		Stage[c04OptCase]{Name: "changing-options", Gen: c04GenOpt, Run: c04RunOpt, N: pick(1500, 40000)},
 		Stage[c04TimeCase]{Name: "time", Gen: c04GenTime, Run: c04RunTime, N: pick(60, 1500)},
